@@ -241,11 +241,13 @@ func (s *Statement) Pipeline(task *pod_info.PodInfo, hostname string, updateTask
 		previousResourceClaimInfo = task.ResourceClaimInfo.Clone()
 	}
 
+	var previousTaskOnNode *pod_info.PodInfo
 	if isSharedAndMoveToDifferentGPU {
 		log.InfraLogger.V(6).Infof(
 			"Task: <%v/%v> already exists on node: <%v> on gpu index of: <%v>, moving it to index: <%v>",
 			task.Namespace, task.Name, hostname, taskOnNode.GPUGroups, task.GPUGroups)
 		previousGpuGroup = taskOnNode.GPUGroups
+		previousTaskOnNode = taskOnNode
 		if err := node.ConsolidateSharedPodInfoToDifferentGPU(task); err != nil {
 			log.InfraLogger.Errorf("Failed to unevict task <%v/%v> to node <%v> in Session <%v>: %v",
 				task.Namespace, task.Name, hostname, s.sessionID, err)
@@ -282,7 +284,8 @@ func (s *Statement) Pipeline(task *pod_info.PodInfo, hostname string, updateTask
 		nextNode:                  hostname,
 		message:                   fmt.Sprintf("Pod %s/%s was pipelined to node %s", task.Namespace, task.Name, node.Name),
 		reverseOperation: func() error {
-			return s.unpipeline(task, previousNode, previousStatus, previousGpuGroup, previousResourceClaimInfo, previousIsVirtualStatus)
+			return s.unpipeline(task, previousNode, previousStatus, previousGpuGroup, previousResourceClaimInfo,
+				previousIsVirtualStatus, previousTaskOnNode)
 		},
 	})
 	task.IsVirtualStatus = true
@@ -433,7 +436,7 @@ func (s *Statement) commitPipeline(task *pod_info.PodInfo, message string) {
 func (s *Statement) unpipeline(
 	task *pod_info.PodInfo, previousNode string, previousStatus pod_status.PodStatus, previousGpuGroups []string,
 	previousResourceClaimInfo bindrequest_info.ResourceClaimInfo,
-	previousIsVirtualStatus bool) error {
+	previousIsVirtualStatus bool, previousTaskOnNode *pod_info.PodInfo) error {
 	// Only update status in session
 	job, found := s.ssn.ClusterInfo.PodGroupInfos[task.Job]
 	if found {
@@ -457,6 +460,11 @@ func (s *Statement) unpipeline(
 		if err := node.RemoveTask(task); err != nil {
 			log.InfraLogger.Errorf("Failed to unpipeline task <%v/%v> from node <%v> in Session <%v>: %v",
 				task.Namespace, task.Name, hostname, s.sessionID, err)
+		}
+		if previousTaskOnNode != nil {
+			// The task was moved to a different gpu of the same node: the node still accounts for the releasing
+			// copy that the move replaced in its index, put that copy back.
+			node.PodInfos[pod_info.PodKey(task.Pod)] = previousTaskOnNode
 		}
 	} else {
 		log.InfraLogger.Errorf("Failed to find Node <%s> in Session <%s> index when binding.",
